@@ -3,6 +3,10 @@
 // configurations plus the innermost storage equals the original.
 #include "zoo_driver.hpp"
 
+namespace zd {
+Case draw_bits_case(const model::Desc & d, bool allow_large);
+}
+
 namespace {
 using namespace zd;
 
@@ -26,9 +30,12 @@ Verdict run(const Ctx & x, const Case & c)
         // the array layer's length: product of the extents (row-major) / round_pow2(max extent)^N (curves)
         const model::Layer & O = d.layers[arr - 1];
         uint64_t want = 1, mx = 1;
-        for (uint64_t e : c.ext) {
-            want *= e;
-            mx = std::max(mx, e);
+        for (size_t a = 0; a < O.N; ++a) {
+            want *= c.ext[a];
+            mx = std::max(mx, c.ext[a]);
+        }
+        if (O.kind == "strided" && c.ext.size() > O.N) {
+            want += c.ext[O.N];   // extra storage cells beyond the grid
         }
         if (O.kind != "strided") {
             uint64_t side = 1;
@@ -36,7 +43,7 @@ Verdict run(const Ctx & x, const Case & c)
                 side *= 2;
             }
             want = 1;
-            for (size_t a = 0; a < c.ext.size(); ++a) {
+            for (size_t a = 0; a < O.N; ++a) {
                 want *= side;
             }
         }
@@ -65,6 +72,10 @@ Verdict run(const Ctx & x, const Case & c)
     std::unique_ptr<zoo::IStack> rb2 = st->rebuild_from_backend();
     if (rb2->configs() != got || rb2->dump() != st->dump()) {
         return std::string("a field built from (own configuration, the backend's owning data) differs from the original");
+    }
+    std::unique_ptr<zoo::IStack> rb3 = st->rebuild_cfg_backend();
+    if (rb3->configs() != got || rb3->dump() != st->dump()) {
+        return std::string("owning data constructed from (configuration, backend owning data &&) reports a different configuration than it was given");
     }
     const model::Layer & top = d.layers[0];
     for (const Words & xc : c.coords) {
@@ -116,6 +127,9 @@ ModeReg reg("C17", [](const zoo::Factory & f) {
         [ctx] {
             auto g = rc::gen::exec([ctx] { return draw_case(ctx->d, 3, true); });
             rc_campaign<Case>(ctx->inst, tier(100, 2000), 100, g, [ctx](const Case & c) { return run(*ctx, c); });
+            // all configuration values, not only those a lookup can live with: arbitrary bit patterns, inverted boxes (no lookups)
+            auto gb = rc::gen::exec([ctx] { return draw_bits_case(ctx->d, false); });
+            rc_campaign<Case>(ctx->inst, tier(60, 1200), 100, gb, [ctx](const Case & c) { return run(*ctx, c); });
         },
         [ctx](const json & j) { return run(*ctx, Case::from_json(j)); }
     );
